@@ -8,7 +8,7 @@ tprog.LAYOUTS = True      # leaves are handed over in C / Fortran / strided / ne
 PROP = 'C06'
 LEAN_TARGETS = ['Props.C06']
 REQUIRED_THEOREMS = ['Props.C06.conv_out_size', 'Props.C06.conv1d_is_cross_correlation', 'Props.C06.same_preserves_length',
-                     'Props.C06.pool_default_stride', 'Props.C06.maxpool_padding_never_wins', 'Props.C06.avgpool_counts_padding']
+                     'Props.C06.pool_default_stride', 'Props.C06.maxpool_padding_never_wins', 'Props.C06.avgpool_counts_padding', 'Props.C06.conv2d_is_cross_correlation', 'Props.C06.conv2d_accepts_iff', 'Props.C06.avgpool2d_counts_padding', 'Props.C06.maxpool2d_padding_never_wins', 'Props.C06.softmax_spec', 'Props.C06.log_softmax_spec', 'Props.C06.cross_entropy_spec', 'Props.C06.mse_spec']
 RULE = ('forward values of every nn op over the C02 generators (activations, softmax family along every dim, losses, linear, '
         'conv1d/2d and max/avg pooling over a geometry grid, unfold/fold, batch_norm in all modes) with ~8 % malformed '
         'configurations; loss modules under reduction mean / sum / none (value and shape); geometry layers constructed with int '
@@ -51,15 +51,21 @@ def layer_case(rng):
     kind = rng.pick(['conv2d', 'conv1d', 'pool2d', 'pool1d'])
     if kind == 'conv2d':
         k, s, d = it(rng), it(rng, 1, 2), it(rng, 1, 2)
-        p = rng.pick(['same', 'valid', None, None])
+        p = rng.pick(['same', 'same', 'valid', None, None])
         p = p if p else it(rng, 0, 2)
+        if p == 'same':      # the whole (kernel, dilation) parity table per axis: d*(k-1) even is honoured, odd is rejected
+            k, d = it(rng, 1, 5), it(rng, 1, 4)
+            if rng.chance(.8): s = [1]
         H, W = rng.randint(3, 8), rng.randint(3, 8)
         return {'kind': 'layer', 'layer': kind, 'k': k, 's': s, 'p': p, 'd': d, 'H': H, 'W': W,
                 'lines': [f"layer conv2d {show_ints(k)} {show_ints(s)} {p if isinstance(p, str) else show_ints(p)} {show_ints(d)} {H} {W}"], 'malformed': False}
     if kind == 'conv1d':
         k, s, d = rng.randint(1, 4), rng.randint(1, 2), rng.randint(1, 2)
-        p = rng.pick(['same', 'valid', None, None])
+        p = rng.pick(['same', 'same', 'valid', None, None])
         p = p if p else rng.randint(0, 2)
+        if p == 'same':
+            k, d = rng.randint(1, 5), rng.randint(1, 4)
+            if rng.chance(.8): s = 1
         Ln = rng.randint(3, 9)
         return {'kind': 'layer', 'layer': kind, 'k': k, 's': s, 'p': p, 'd': d, 'L': Ln,
                 'lines': [f'layer conv1d {k} {s} {p} {d} {Ln}'], 'malformed': False}
